@@ -417,8 +417,8 @@ Proof.
   destruct (tn_leaves (t_root (trie_build ps kvs))) eqn:E; [reflexivity|]. exfalso. apply Hne. apply (Hl eq_refl). exact Hin.
 Qed.
 
-(* native twin: whenever it does not read out of bounds it returns what the Go code returns *)
-Lemma tn_get_native_agrees {V} ps : forall k (n : tnode V) r, tn_get_native ps k n = Some r -> r = tn_get ps k n.
+(* native twin, tree built before fix 0d2d3ac: whenever it does not read out of bounds it returns what the Go code returns *)
+Lemma tn_get_native_nospare_agrees {V} ps : forall k (n : tnode V) r, tn_get_native_nospare ps k n = Some r -> r = tn_get ps k n.
 Proof.
   induction ps as [|p ps IH]; intros k n r; simpl.
   - intros H. inversion H. reflexivity.
@@ -430,13 +430,39 @@ Proof.
       destruct (tn_leaves c); [apply IH|]. intros H. inversion H. reflexivity.
 Qed.
 
-(* ... and it reads out of bounds exactly when some level of the walk computes a bucket equal to the index length *)
-Lemma tn_get_native_oob_root {V} p ps k (n : tnode V) :
-  bucket p k = length (tn_index n) -> tn_get_native (p :: ps) k n = None.
+(* ... and it reads out of bounds as soon as a level of the walk computes a bucket equal to the index length *)
+Lemma tn_get_native_nospare_oob_root {V} p ps k (n : tnode V) :
+  bucket p k = length (tn_index n) -> tn_get_native_nospare (p :: ps) k n = None.
 Proof.
   intros H. simpl. rewrite H. rewrite Nat.ltb_irrefl.
   destruct (nth_error (tn_index n) (length (tn_index n))) eqn:E; [|reflexivity].
   assert (nth_error (tn_index n) (length (tn_index n)) <> None) by congruence. apply nth_error_Some in H0. lia.
+Qed.
+
+(* native twin, tree with the spare node (fix 0d2d3ac): same agreement ... *)
+Lemma tn_get_native_agrees {V} ps : forall k (n : tnode V) r, tn_get_native ps k n = Some r -> r = tn_get ps k n.
+Proof.
+  induction ps as [|p ps IH]; intros k n r; simpl.
+  - intros H. inversion H. reflexivity.
+  - destruct (length (tn_index n) <? bucket p k)%nat eqn:E.
+    + apply Nat.ltb_lt in E. intros H. inversion H. subst.
+      destruct (nth_error (tn_index n) (bucket p k)) eqn:E2; [|reflexivity].
+      assert (nth_error (tn_index n) (bucket p k) <> None) by congruence. apply nth_error_Some in H0. lia.
+    + destruct (nth_error (tn_index n) (bucket p k)) as [c|].
+      * destruct (tn_leaves c); [apply IH|]. intros H. inversion H. reflexivity.
+      * destruct (tn_index n); [discriminate|]. intros H. inversion H. reflexivity.
+Qed.
+
+(* ... and the walk never leaves allocated memory on a tree in which every visited node has a non-empty index or is a leaf level:
+   in particular on every trie with one position into which a non-empty key was Set (what FieldNameMap.Build constructs) *)
+Lemma tn_get_native_total_one {V} p k (n : tnode V) : tn_index n <> [] -> tn_get_native [p] k n = Some (tn_get [p] k n).
+Proof.
+  intros Hne. simpl. destruct (length (tn_index n) <? bucket p k)%nat eqn:E.
+  - apply Nat.ltb_lt in E. destruct (nth_error (tn_index n) (bucket p k)) eqn:E2; [|reflexivity].
+    assert (nth_error (tn_index n) (bucket p k) <> None) by congruence. apply nth_error_Some in H. lia.
+  - destruct (nth_error (tn_index n) (bucket p k)) as [c|].
+    + destruct (tn_leaves c); reflexivity.
+    + destruct (tn_index n); [contradiction|reflexivity].
 Qed.
 
 (* ------------------------------------------------------------------ HashMap: probe paths *)
@@ -721,26 +747,27 @@ Lemma trie_get_with_empty {V} (t : trie V) e k :
   t_empty t = Some e -> trie_get (Trie (t_count t) (t_positions t) (Some e) (t_root t)) k = trie_get t k.
 Proof. intros H. unfold trie_get. destruct k; [cbn [t_empty]; symmetry; exact H|reflexivity]. Qed.
 
-(* FieldNameMap.Get after Build — whichever structure the dispersion statistic chose — for EVERY byte string k.
-   The only hypothesis is the one the hash path forces: if Build took the hash path, no key may have DJB hash 0. *)
-Theorem fnm_get_build {V} (m : fnmap V) k :
+(* FieldNameMap.Get after Build — whichever structure is chosen, before (fallback = false) or after (fallback = true) fix
+   bd82c3d — for EVERY byte string k.  The only hypothesis is the one the hash path forces: if Build takes the hash path,
+   no key may have DJB hash 0. *)
+Theorem fnm_get_build_gen {V} fallback (m : fnmap V) k :
   fn_impl m = FNone -> NoDup (map fst (fn_all m)) ->
-  (fnm_uses_hash m = true -> forall k0, In k0 (map fst (fn_all m)) -> djb k0 <> 0) ->
-  fnm_get (fnm_build m) k = Some (assoc k (fn_all m)).
+  (build_pos fallback (fn_maxlen m) (fn_all m) = None -> forall k0, In k0 (map fst (fn_all m)) -> djb k0 <> 0) ->
+  fnm_get (fnm_build_gen fallback m) k = Some (assoc k (fn_all m)).
 Proof.
-  intros Hi Hnd Hz. unfold fnm_uses_hash in Hz. unfold fnm_build in *.
+  intros Hi Hnd Hz. unfold fnm_build_gen in *.
   destruct (fn_all m) as [|kv0 rest] eqn:Eall.
   - unfold fnm_get. rewrite Hi. reflexivity.
   - rewrite <- Eall in *. set (empty := if 0 <? fn_maxlen m then assoc [] (fn_all m) else None) in *.
     assert (Hempty : forall e, empty = Some e -> assoc [] (fn_all m) = Some e).
     { unfold empty. destruct (0 <? fn_maxlen m); [auto|discriminate]. }
-    destruct (ideal_pos (fn_maxlen m) (fn_all m)) as [p|].
+    destruct (build_pos fallback (fn_maxlen m) (fn_all m)) as [p|].
     + unfold fnm_get. cbn [fn_impl]. f_equal.
       destruct empty as [e|] eqn:Ee.
       * rewrite trie_get_with_empty; [apply trie_get_build; exact Hnd|].
         pose proof (trie_get_build [Z.of_nat p] (fn_all m) [] Hnd) as H. unfold trie_get in H. rewrite H. apply Hempty. reflexivity.
       * apply trie_get_build. exact Hnd.
-    + cbn [fn_impl] in Hz. specialize (Hz eq_refl).
+    + specialize (Hz eq_refl).
       unfold fnm_get. cbn [fn_impl].
       pose proof (hm_fold_inv true (fn_all m) (hm_new (length (fn_all m) * load_factor)) [] (hinv_new _)) as H. cbn [app] in H.
       assert (Hlen : (0 < length (fn_all m))%nat) by (rewrite Eall; simpl; lia).
@@ -761,13 +788,98 @@ Proof.
       * apply hm_get_correct; [exact H1|exact Hnd|exact Hz|]. apply nfull_free. rewrite H2. unfold load_factor. lia.
 Qed.
 
+(* ---- the repaired Build never puts a key the hash map cannot hold on the hash path *)
+
+Lemma hash_map_safe_djb k : hash_map_safe k = true -> djb k <> 0.
+Proof. unfold hash_map_safe. intros H. apply andb_true_iff in H. destruct H as [_ H]. apply negb_true_iff in H. apply Z.eqb_neq. exact H. Qed.
+
+Lemma distinct_at_pos {V} i (kvs : list (key * V)) : kvs <> [] -> (1 <= distinct_at i kvs)%nat.
+Proof.
+  destruct kvs as [|kv kvs]; [contradiction|]. intros _. unfold distinct_at.
+  assert (In (char_at i (fst kv)) (nodup Z.eq_dec (map (fun kv0 => char_at i (fst kv0)) (kv :: kvs)))) by (apply nodup_In; left; reflexivity).
+  destruct (nodup _ _); [destruct H|simpl; lia].
+Qed.
+
+Lemma best_scan_keeps {V} (kvs : list (key * V)) count pos : forall bn bd b, exists b', best_scan kvs count pos bn bd (Some b) = Some b'.
+Proof.
+  induction pos as [|i IH]; intros bn bd b; simpl; [eexists; reflexivity|].
+  destruct (rat_lt count (Z.of_nat (distinct_at i kvs)) bn bd); apply IH.
+Qed.
+
+Lemma best_pos_some {V} maxlen (kvs : list (key * V)) : kvs <> [] -> (0 < Z.to_nat maxlen)%nat -> exists p, best_pos maxlen kvs = Some p.
+Proof.
+  intros Hne Hpos. unfold best_pos. destruct (Z.to_nat maxlen) as [|i]; [lia|]. simpl.
+  pose proof (distinct_at_pos i kvs Hne) as Hl.
+  assert (E : rat_lt (Z.of_nat (length kvs)) (Z.of_nat (distinct_at i kvs)) (Z.of_nat (length kvs) + 1) 1 = true).
+  { unfold rat_lt. apply Z.ltb_lt. nia. }
+  rewrite E. apply best_scan_keeps.
+Qed.
+
+(* the invariant of FieldNameMap.Set: maxKeyLength bounds every key *)
+Definition fnm_wf {V} (m : fnmap V) : Prop := forall k, In k (map fst (fn_all m)) -> Z.of_nat (length k) <= fn_maxlen m.
+
+Lemma build_pos_none_safe {V} (m : fnmap V) :
+  fnm_wf m -> build_pos true (fn_maxlen m) (fn_all m) = None -> forall k0, In k0 (map fst (fn_all m)) -> djb k0 <> 0.
+Proof.
+  intros Hwf Hb k0 Hin. unfold build_pos in Hb. destruct (ideal_pos (fn_maxlen m) (fn_all m)); [discriminate|]. simpl in Hb.
+  destruct (forallb (fun kv => hash_map_safe (fst kv)) (fn_all m)) eqn:Es.
+  - rewrite forallb_forall in Es. apply in_map_iff in Hin. destruct Hin as [kv [<- Hin]]. apply hash_map_safe_djb. apply Es. exact Hin.
+  - simpl in Hb. destruct (Nat.eq_dec (Z.to_nat (fn_maxlen m)) 0) as [E0|E0].
+    + (* maxKeyLength = 0: every key is empty *)
+      specialize (Hwf k0 Hin). destruct k0; [vm_compute; discriminate|]. simpl in Hwf. lia.
+    + destruct (best_pos_some (fn_maxlen m) (fn_all m)) as [p Hp]; [|lia|congruence].
+      intros E. rewrite E in Hin. destruct Hin.
+Qed.
+
+(* since fix bd82c3d: FieldNameMap.Get after Build = association list lookup for EVERY byte string, no hypothesis on the keys *)
+Theorem fnm_get_build {V} (m : fnmap V) k :
+  fn_impl m = FNone -> NoDup (map fst (fn_all m)) -> fnm_wf m -> fnm_get (fnm_build m) k = Some (assoc k (fn_all m)).
+Proof.
+  intros Hi Hnd Hwf. apply fnm_get_build_gen; [exact Hi|exact Hnd|]. apply build_pos_none_safe. exact Hwf.
+Qed.
+
+(* ... and whenever the hash map is used, every key in it is one it can hold (Go and native twin alike) *)
+Theorem fnm_hash_only_safe {V} (m : fnmap V) :
+  fnm_wf m -> fnm_uses_hash m = true -> forall k0, In k0 (map fst (fn_all m)) -> hash_map_safe k0 = true.
+Proof.
+  intros Hwf Hu k0 Hin. unfold fnm_uses_hash, fnm_build, fnm_build_gen in Hu.
+  destruct (fn_all m) as [|kv0 rest] eqn:Eall; [destruct Hin|]. rewrite <- Eall in *.
+  destruct (build_pos true (fn_maxlen m) (fn_all m)) eqn:Eb; [discriminate|].
+  unfold build_pos in Eb. destruct (ideal_pos (fn_maxlen m) (fn_all m)); [discriminate|]. simpl in Eb.
+  destruct (forallb (fun kv => hash_map_safe (fst kv)) (fn_all m)) eqn:Es.
+  - rewrite forallb_forall in Es. apply in_map_iff in Hin. destruct Hin as [kv [<- Hin]]. apply Es. exact Hin.
+  - simpl in Eb. destruct (Nat.eq_dec (Z.to_nat (fn_maxlen m)) 0) as [E0|E0].
+    + specialize (Hwf k0 Hin). destruct k0; [vm_compute; reflexivity|]. simpl in Hwf. lia.
+    + destruct (best_pos_some (fn_maxlen m) (fn_all m)) as [p Hp]; [|lia|congruence].
+      intros E. rewrite E in Hin. destruct Hin.
+Qed.
+
+Lemma fnm_of_list_wf {V} (kvs : list (key * V)) : fnm_wf (fnm_of_list kvs).
+Proof.
+  unfold fnm_of_list.
+  assert (G : forall (kvs : list (key * V)) m, fnm_wf m -> fnm_wf (fold_left (fun m kv => fnm_set m (fst kv) (snd kv)) kvs m)).
+  { clear kvs. induction kvs as [|[k v] kvs IH]; intros m H; simpl; [exact H|]. apply IH.
+    intros k' Hin. cbn [fnm_set fn_all fn_maxlen fst snd] in *. rewrite upsert_keys in Hin.
+    assert (Hc : In k' (map fst (fn_all m)) \/ k' = k).
+    { destruct (is_some (assoc k (fn_all m))); [left; exact Hin|]. apply in_app_or in Hin. destruct Hin as [Hin|[Hin|[]]]; auto. }
+    destruct Hc as [Hc|Hc]; [specialize (H k' Hc); lia|subst; lia]. }
+  apply G. intros k [].
+Qed.
+
 (* build_either_way for a map filled through FieldNameMap.Set (duplicates allowed: the last value of a key wins) *)
 Theorem fnm_get_of_list {V} (kvs : list (key * V)) k :
-  (fnm_uses_hash (fnm_of_list kvs) = true -> forall k0, In k0 (map fst kvs) -> djb k0 <> 0) ->
   fnm_get (fnm_build (fnm_of_list kvs)) k = Some (assoc k (rev kvs)).
 Proof.
-  intros Hz. destruct (fnm_of_list_all kvs) as [Hnd [Ha Hi]]. rewrite <- Ha. apply fnm_get_build; [exact Hi|exact Hnd|].
-  intros Hu k0 Hin. apply Hz; [exact Hu|].
+  destruct (fnm_of_list_all kvs) as [Hnd [Ha Hi]]. rewrite <- Ha. apply fnm_get_build; [exact Hi|exact Hnd|apply fnm_of_list_wf].
+Qed.
+
+(* the code before the fix needed the hash-0 hypothesis (findings 1401) *)
+Theorem fnm_get_of_list_prefix {V} (kvs : list (key * V)) k :
+  (forall k0, In k0 (map fst kvs) -> djb k0 <> 0) ->
+  fnm_get (fnm_build_prefix (fnm_of_list kvs)) k = Some (assoc k (rev kvs)).
+Proof.
+  intros Hz. destruct (fnm_of_list_all kvs) as [Hnd [Ha Hi]]. rewrite <- Ha. apply fnm_get_build_gen; [exact Hi|exact Hnd|].
+  intros _ k0 Hin. apply Hz.
   destruct (assoc k0 (fn_all (fnm_of_list kvs))) eqn:E.
   - rewrite Ha in E. apply assoc_in in E. apply in_rev in E. change k0 with (fst (k0, v)). apply in_map. exact E.
   - apply assoc_none_notin in E. contradiction.
